@@ -154,6 +154,17 @@ def outer_tag(T, v=None):
     raise ValueError('no outer tag')
 
 
+def static_min_tag(T):
+    """X.690 9.3 (CER): an untagged CHOICE is ordered as though it had the smallest tag of its alternatives (nested
+    untagged CHOICEs included)"""
+    st = tag_stack(T)
+    if st:
+        return st[0]
+    if T['k'] == 'CHOICE':
+        return min(static_min_tag(ft) for n, ft, m in T['fields'])
+    raise ValueError('no outer tag')
+
+
 def field_type(T, name):
     for n, ft, mode in T['fields']:
         if n == name:
@@ -264,7 +275,8 @@ def content_of(T, v, rules, quirks=(), ine=False):
             # alternative chosen in a CHOICE member)
             e = enc(ft, v[n], rules, quirks, ine=(mode == 'opt'))
             if e:
-                chunks.append((outer_tag(ft, v[n]), e))
+                # X.690 10.3 (DER): by the tag actually encoded; 9.3 (CER): by the smallest tag of the component type
+                chunks.append((static_min_tag(ft) if rules == 'CER' else outer_tag(ft, v[n]), e))
         if k == 'SET':
             chunks.sort(key=lambda c: c[0])
         return b''.join(c[1] for c in chunks), True
@@ -696,6 +708,13 @@ def content_any(T, v, ch):
         c = bytes(bits_content(v))
         if len(c) > 1 and ch.pick(2, 'segmented', ['primitive', 'constructed']) == 1:
             return seg_tree(c[1:], 3, ch, 1, c[0]), True
+        if len(c) == 1:
+            # 8.6.4: the empty bit string may also be constructed: no segment at all, or one empty primitive segment
+            e = ch.pick(3, 'empty-bits', ['primitive', 'no-segment', 'one-empty-segment'])
+            if e == 1:
+                return b'', True
+            if e == 2:
+                return frame_any(0, 0, 3, b'\x00', ch), True
         return c, False
     if k in STRINGS:
         c = str_octets(k, v)
